@@ -484,16 +484,62 @@ func (b *assignmentBuilder) isStructFieldAccessible(structNode bmodel.Node, leaf
 func (b *assignmentBuilder) isNameable(t types.Type) bool {
 	switch typ := t.(type) {
 	case *types.Named:
+		for i := 0; i < typ.TypeArgs().Len(); i++ {
+			if !b.isNameable(typ.TypeArgs().At(i)) {
+				return false
+			}
+		}
 		obj := typ.Obj()
-		return obj.Pkg() == nil || !b.isExternalPkg(obj.Pkg()) || obj.Exported()
+		if obj.Pkg() == nil || !b.isExternalPkg(obj.Pkg()) {
+			return true
+		}
+		if !obj.Exported() {
+			return false
+		}
+		if _, imported := b.imports.LookupName(obj.Pkg().Path()); !imported {
+			// The package's own name is written and left to the import optimizer, which must
+			// not find another package behind that name.
+			_, taken := b.imports.LookupPath(obj.Pkg().Name())
+			return !taken
+		}
+		return true
 	case *types.Pointer:
 		return b.isNameable(typ.Elem())
 	case *types.Slice:
 		return b.isNameable(typ.Elem())
 	case *types.Array:
 		return b.isNameable(typ.Elem())
+	case *types.Chan:
+		return b.isNameable(typ.Elem())
 	case *types.Map:
 		return b.isNameable(typ.Key()) && b.isNameable(typ.Elem())
+	case *types.Signature:
+		return b.isNameable(typ.Params()) && b.isNameable(typ.Results())
+	case *types.Tuple:
+		for i := 0; i < typ.Len(); i++ {
+			if !b.isNameable(typ.At(i).Type()) {
+				return false
+			}
+		}
+	case *types.Struct:
+		for i := 0; i < typ.NumFields(); i++ {
+			field := typ.Field(i)
+			if !b.isNameable(field.Type()) || (!field.Exported() && b.isExternalPkg(field.Pkg())) {
+				return false
+			}
+		}
+	case *types.Interface:
+		for i := 0; i < typ.NumEmbeddeds(); i++ {
+			if !b.isNameable(typ.EmbeddedType(i)) {
+				return false
+			}
+		}
+		for i := 0; i < typ.NumExplicitMethods(); i++ {
+			method := typ.ExplicitMethod(i)
+			if !b.isNameable(method.Type()) || (!method.Exported() && b.isExternalPkg(method.Pkg())) {
+				return false
+			}
+		}
 	}
 	return true
 }
